@@ -13,7 +13,8 @@ TRUSTED_BASE = c01.TRUSTED_BASE + [
 ASSUMPTIONS = ["NoDup: no coordinate value is repeated inside one input (with repeats the first occurrence is used, "
                "which is order dependent by nature; that path is covered by C02_index_correct only)",
                "MetaAgree: location metadata agree between files (they are taken from the first file)"]
-RULE = ("data.req on datasets whose inputs list dimension entries in random, mutually different orders; "
+RULE = ("data.req on datasets whose inputs list dimension entries in random, mutually different orders (a quarter of them "
+        "with -d/-tod/-l/… subsets); "
         "data.perm: each dataset is re-submitted with every input's time/lead/location entries shuffled and the inputs "
         "rotated (implementation-only metamorphic relation); data.text: the same dataset through real text files with "
         "shuffled rows and columns; non-trivial = a request returns a finite value")
@@ -30,8 +31,11 @@ def gen_ops(tier, rng):
     n = 150 if tier == "quick" else 3000
     for k in range(n):
         ds = dg.gen_dataset(rng)
+        if k % 4 == 3:
+            # with user subsets (-d, -tod, -l, …): matching by coordinate must survive the second index pass
+            ds = dg.add_subset_options(ds, rng)
         dims = dg.oracle_dims(ds)
-        if dims is None:
+        if dims is None or not all(dims):
             continue
         reqs = dg.all_requests(ds, dims, rng, 25)
         yield "data.req", dg.enc_op(ds, reqs)
